@@ -99,6 +99,15 @@ func (w *RefreshWorker) refreshInALoop(ctx context.Context) {
 		case <-w.done:
 			return
 		case <-w.clock.After(waitDur):
+			// If the worker has been shut down while the timer was already
+			// due, both cases are ready and select picks one at random, so
+			// give the shutdown priority.
+			select {
+			case <-w.done:
+				return
+			default:
+			}
+
 			err := w.refresh(ctx)
 			if err != nil {
 				w.errHdlr.Handle(ctx, err)
